@@ -27,7 +27,7 @@ def echoBody (p : Parsed) (params : List Bytes) (ctx : Option Bytes) : Bytes :=
   ascii "M=" ++ ascii p.method ++ ascii ";P=" ++ hexOf (pathStr p) ++ ascii ";Q=" ++ joinWith 44 q ++ ascii ";H=" ++ joinWith 44 h
     ++ ascii ";X=" ++ joinWith 44 x ++ ascii ";B=" ++ (match p.payload with | some b => hexOf b | none => [45])
     ++ ascii ";A=" ++ joinWith 44 (params.map hexOf) ++ ascii ";C=" ++ (match ctx with | some c => hexOf c | none => [45])
-    ++ ascii ";I=peer"          -- `req.ip`: the address of the connection, whatever the requests on it carry
+    ++ ascii ";I=" ++ ((getHeader p (ascii "X-Set-Ip")).getD (ascii "peer"))          -- `req.ip`: the address of the connection — or what the fang wrote there from THIS request's `X-Set-Ip` —, whatever earlier requests on it carried
 
 def keyOf (variant : String) : Nat := ((Gen.resHeaderNames.map (·.1)).idxOf? variant).getD 0
 def statusLine (code : Nat) : Bytes :=
